@@ -26,6 +26,8 @@ use std::time::{Duration, Instant};
 const WATCHDOG: Duration = Duration::from_secs(10);
 const FAR: Duration = Duration::from_secs(3600);
 const REPLAY_RUNS: usize = 200;
+/// every missed wake-up costs a 10 s watchdog: stop generating once the point is made
+const MAX_FAILURES: u64 = 3;
 
 // ------------------------------------------------------------------------------------------
 // ops
@@ -110,7 +112,10 @@ enum Kind { Credit(u64), Reconnect }
 
 #[derive(Clone, Debug)]
 struct Case {
+    /// `tmo`: short deadline, condition never true.
     tmo: bool,
+    /// `imm`: deadline already passed at entry, condition already true: the value must win over Timeout
+    imm: bool,
     kind: Kind,
     window: u64,
     setup: Vec<Op>,
@@ -123,19 +128,19 @@ impl Case {
     fn head(&self, idx: u64) -> String {
         let (k, len) = match &self.kind { Kind::Credit(l) => ("credit", *l), Kind::Reconnect => ("reconnect", 0) };
         let thr = if self.threads.is_empty() { "-".to_string() } else { self.threads.iter().map(|t| show_ops(t)).collect::<Vec<_>>().join("/") };
-        format!("{} {} {} {} {} setup={} thr={}", if self.tmo { "tmo" } else { "wake" }, idx, k, len, self.window, show_ops(&self.setup), thr)
+        format!("{} {} {} {} {} setup={} thr={}", if self.imm { "imm" } else if self.tmo { "tmo" } else { "wake" }, idx, k, len, self.window, show_ops(&self.setup), thr)
     }
     fn parse(line: &str) -> Option<Case> {
         let w = words(line);
         if w.len() < 7 { return None; }
-        let tmo = match w[0] { "tmo" => true, "wake" => false, _ => return None };
+        let (tmo, imm) = match w[0] { "tmo" => (true, false), "wake" => (false, false), "imm" => (true, true), _ => return None };
         let kind = match w[2] { "credit" => Kind::Credit(w[3].parse().ok()?), "reconnect" => Kind::Reconnect, _ => return None };
         let window = w[4].parse().ok()?;
         let setup = parse_ops(w[5].strip_prefix("setup=")?)?;
         let t = w[6].strip_prefix("thr=")?;
         let threads = if t == "-" { vec![] } else { t.split('/').map(parse_ops).collect::<Option<Vec<_>>>()? };
         let seq = w.get(7).map(|o| *o != "order=-").unwrap_or(true);
-        Some(Case { tmo, kind, window, setup, threads, seq })
+        Some(Case { tmo, imm, kind, window, setup, threads, seq })
     }
 }
 
@@ -189,21 +194,31 @@ struct Exec {
     /// `tmo`: (returned no earlier than the deadline?, elapsed ms)
     tmo_ok: Option<(bool, u128)>,
     cleanup_missed: bool,
-    setup_state: (u64, u64),
+    /// the waiter's condition in the real object right after the setup (before the waiter starts)
+    entry_want: Option<Got>,
 }
 
 /// Run one case against the real `TransferControl`.
 fn execute(c: &Case, rng: &mut Rng, tmo_ms: u64) -> Exec {
     let tc = TransferControl::new(c.window);
-    for op in &c.setup { apply(&tc, op); }
-    let setup_state = tc.offsets();
+    let mut setup_pending = None;
+    for op in &c.setup {
+        match (op, apply(&tc, op)) { (Op::Adv(_), _) => setup_pending = None, (_, OpRes::ResumeOk(o)) => setup_pending = Some(o), _ => {} }
+    }
+    let entry_want = match (tc.cancel_reason(), &c.kind) {
+        (Some(r), _) => Some(Got::Cancelled(r)),
+        (None, Kind::Credit(len)) => { let (s, a) = tc.offsets(); let inf = s.saturating_sub(a); if inf == 0 || inf.saturating_add(*len) <= c.window { Some(Got::Ok) } else { None } }
+        (None, Kind::Reconnect) => setup_pending.map(Got::Resume),
+    };
+    let tmo_ms = if c.imm { 0 } else { tmo_ms };
 
     // ---- waiter
     let tid = Arc::new(AtomicI64::new(0));
     let entered = Arc::new(AtomicBool::new(false));
+    let done = Arc::new(AtomicBool::new(false));
     let (tx, rx) = mpsc::channel::<(Got, Instant, Instant)>();
     let waiter = {
-        let (tc, tid, entered, kind, tmo) = (tc.clone(), tid.clone(), entered.clone(), c.kind.clone(), c.tmo);
+        let (tc, tid, entered, done, kind, tmo) = (tc.clone(), tid.clone(), entered.clone(), done.clone(), c.kind.clone(), c.tmo);
         std::thread::spawn(move || {
             tid.store(gettid(), Ordering::SeqCst);
             let span = if tmo { Duration::from_millis(tmo_ms) } else { FAR };
@@ -223,6 +238,7 @@ fn execute(c: &Case, rng: &mut Rng, tmo_ms: u64) -> Exec {
                 },
             });
             let t1 = Instant::now();
+            done.store(true, Ordering::SeqCst);
             let _ = tx.send((r.unwrap_or(Got::Panic), deadline, t1));
         })
     };
@@ -230,9 +246,12 @@ fn execute(c: &Case, rng: &mut Rng, tmo_ms: u64) -> Exec {
     // ---- wait until the waiter is (very probably) parked; a fraction of the cases races its entry instead
     let mut parked_seen = false;
     let style = rng.below(10);
-    if style < 7 {
+    if c.imm {
+        // returns at once: nothing to wait for
+    } else if style < 7 {
         let limit = Instant::now() + Duration::from_secs(2);
         loop {
+            if done.load(Ordering::SeqCst) { break; }
             if entered.load(Ordering::SeqCst) && thread_state(tid.load(Ordering::SeqCst)) == 'S' { parked_seen = true; break; }
             if Instant::now() > limit { break; }
             std::thread::yield_now();
@@ -309,7 +328,7 @@ fn execute(c: &Case, rng: &mut Rng, tmo_ms: u64) -> Exec {
     if !cleanup_missed { let _ = waiter.join(); }
 
     let order = if c.seq { Some(snaps.iter().map(|s| s.thread).collect()) } else { None };
-    Exec { got, fin: (sent, acked, cancelled), order, must_return, snaps, results, parked_seen, tmo_ok, cleanup_missed, setup_state }
+    Exec { got, fin: (sent, acked, cancelled), order, must_return, snaps, results, parked_seen, tmo_ok, cleanup_missed, entry_want }
 }
 
 /// Is a resume staged after all ops (ignoring that the waiter may have consumed it)?  Uses the real
@@ -347,6 +366,13 @@ fn oracles(out: &mut Out, c: &Case, e: &Exec, line: &str) {
     }
     if e.cleanup_missed {
         out.oracle_fail(&format!("{}.missed_wakeup.cancel", fam), "a parked waiter did not return within 10 s of cancel()", &ops);
+    }
+    if c.imm && e.entry_want.is_some() {
+        if Some(&e.got) != e.entry_want.as_ref() {
+            let sig = if e.got == Got::Timeout { "timeout.before_condition" } else { "value.at_entry" };
+            out.oracle_fail(&format!("{}.{}", fam, sig), &format!("condition true at entry (deadline already passed): expected {}, wait returned {}", e.entry_want.as_ref().unwrap().show(), e.got.show()), &ops);
+        }
+        return;
     }
     if c.tmo {
         match (&e.got, e.tmo_ok) {
@@ -527,7 +553,28 @@ fn gen_case(rng: &mut Rng, tmo: bool) -> Case {
         }
         threads.retain(|t| !t.is_empty());
     }
-    Case { tmo, kind: if reconnect { Kind::Reconnect } else { Kind::Credit(w.len) }, window: w.window, setup: w.setup, threads, seq }
+    Case { tmo, imm: false, kind: if reconnect { Kind::Reconnect } else { Kind::Credit(w.len) }, window: w.window, setup: w.setup, threads, seq }
+}
+
+/// Deadline already passed at entry, condition already true (made true by the last setup ops).
+fn gen_imm(rng: &mut Rng) -> Case {
+    let w = world(rng);
+    let reconnect = rng.chance(2, 5);
+    let mut setup = w.setup.clone();
+    let covered: Vec<u64> = w.chunks.iter().map(|c| c.0).chain([w.sent]).collect();
+    if reconnect {
+        if rng.chance(2, 3) { setup.push(Op::Res(w.file, *rng.pick(&covered))); }
+        if rng.chance(1, 3) || setup.len() == w.setup.len() { setup.push(Op::Cancel(rng.range(1, 9))); }
+    } else {
+        match rng.below(5) {
+            0 => setup.push(Op::Cancel(rng.range(1, 9))),
+            1 => setup.push(Op::Adv(other_file(rng, w.file))),
+            2 => setup.push(Op::Res(w.file, w.sent)),
+            3 => { setup.push(Op::Ack(w.file, w.sent)); if rng.chance(1, 2) { setup.push(Op::Cancel(rng.range(1, 9))); } }
+            _ => setup.push(Op::Ack(w.file, w.sent)),
+        }
+    }
+    Case { tmo: true, imm: true, kind: if reconnect { Kind::Reconnect } else { Kind::Credit(w.len) }, window: w.window, setup, threads: vec![], seq: false }
 }
 
 // ------------------------------------------------------------------------------------------
@@ -542,7 +589,7 @@ fn run_case(out: &mut Out, c: &Case, idx: u64, rng: &mut Rng) {
     let obs = format!("{} {} {}", idx, e.got.show(), fin);
     oracles(out, c, &e, &line);
     let kind = match c.kind { Kind::Credit(_) => "credit", Kind::Reconnect => "reconnect" };
-    out.count(&format!("{}.{}.{}", if c.tmo { "tmo" } else { "wake" }, kind, e.got.show().split(':').next().unwrap()));
+    out.count(&format!("{}.{}.{}", if c.imm { "imm" } else if c.tmo { "tmo" } else { "wake" }, kind, e.got.show().split(':').next().unwrap()));
     out.count(&format!("threads.{}", c.threads.len()));
     out.count(&format!("ops.{}", c.threads.iter().map(|t| t.len()).sum::<usize>()));
     out.count(if c.seq { "signallers.serialised" } else { "signallers.free" });
@@ -550,7 +597,6 @@ fn run_case(out: &mut Out, c: &Case, idx: u64, rng: &mut Rng) {
     if e.must_return && !c.tmo { out.count("wake.must_return"); }
     if let Some((_, ms)) = e.tmo_ok { out.add("tmo.elapsed_ms_total", ms as u64); }
     for op in c.threads.iter().flatten() { out.count(&format!("op.{}", op.show().split(':').next().unwrap())); }
-    let _ = e.setup_state;
     out.case(&line, &obs, c.tmo || e.must_return);
 }
 
@@ -560,25 +606,36 @@ fn main() {
     let mut out = Out::new(&args.out);
     out.flush_each = true;
     let mut rng = Rng::new(args.seed);
-    out.rule = "one real thread in wait_for_credit/wait_for_reconnect (deadline 1 h) on a TransferControl whose window is full; the harness waits until /proc shows the waiter asleep (70%) or races its entry (30%); then 1-3 ops (ack: exact/insufficient/capped/stale/foreign, cancel, advance, resume: covered/uncovered/foreign, sent) from 1-3 threads with random yields/spins, signallers serialised by a harness lock (linearisation recorded) or free; values scaled by 1..2^40. Oracles: condition true in the real final state => waiter returns within 10 s; never Timeout; returned value matches a state that occurred. `tmo` cases: 4-31 ms deadline, 0-3 ops that cannot satisfy the condition, must return Timeout, not before the deadline. Non-trivial = the final state obliges the waiter to return, or a tmo case; distinct by op line (incl. observed order/outcome)".into();
+    out.rule = "one real thread in wait_for_credit/wait_for_reconnect (deadline 1 h) on a TransferControl whose window is full; the harness waits until /proc shows the waiter asleep (70%) or races its entry (30%); then 1-3 ops (ack: exact/insufficient/capped/stale/foreign, cancel, advance, resume: covered/uncovered/foreign, sent) from 1-3 threads with random yields/spins, signallers serialised by a harness lock (linearisation recorded) or free; values scaled by 1..2^40. Oracles: condition true in the real final state => waiter returns within 10 s; never Timeout; returned value matches a state that occurred. `tmo` cases: 4-31 ms deadline, 0-3 ops that cannot satisfy the condition, must return Timeout, not before the deadline. `imm` cases: deadline already passed at entry and condition already true: the matching value must be returned, not Timeout. Non-trivial = the final state obliges the waiter to return, or a tmo case; distinct by op line (incl. observed order/outcome)".into();
     let mut idx = 0u64;
     if let Some(lines) = args.replay_ops() {
         for l in lines {
             if let Some(c) = Case::parse(&l) {
-                for _ in 0..REPLAY_RUNS { idx += 1; run_case(&mut out, &c, idx, &mut rng); }
+                for _ in 0..REPLAY_RUNS {
+                    if out.oracle_failures >= MAX_FAILURES { break; }
+                    idx += 1;
+                    run_case(&mut out, &c, idx, &mut rng);
+                }
             }
         }
     } else {
-        let (n_wake, n_tmo) = if args.thorough() { (30000, 1500) } else { (3000, 150) };
+        let (n_wake, n_tmo) = if args.thorough() { (100000, 2500) } else { (3000, 150) };
         // tmo cases are spread among the wake cases
         let every = n_wake / n_tmo;
         for i in 0..n_wake {
+            if out.oracle_failures >= MAX_FAILURES {
+                out.count("stopped_early_after_failures");
+                break;
+            }
             idx += 1;
             let c = gen_case(&mut rng, false);
             run_case(&mut out, &c, idx, &mut rng);
             if i % every == 0 {
                 idx += 1;
                 let c = gen_case(&mut rng, true);
+                run_case(&mut out, &c, idx, &mut rng);
+                idx += 1;
+                let c = gen_imm(&mut rng);
                 run_case(&mut out, &c, idx, &mut rng);
             }
         }
